@@ -205,16 +205,19 @@ func main() {
 	type job struct {
 		p   sp.Plan
 		cfg sp.Cfg
+		op  int
 	}
 	var jobs []job
 	pl := plans()
 	for _, p := range pl {
 		for _, c := range p.Cfgs {
-			jobs = append(jobs, job{p, c})
+			for op := range p.Ops() {
+				jobs = append(jobs, job{p, c, op})
+			}
 		}
 	}
 	const sweepParts = 8
-	ctx.Jobs("search", len(jobs), func(j int) { sp.RunPlanCfg(ctx, jobs[j].p, jobs[j].cfg, check) })
+	ctx.Jobs("search", len(jobs), func(j int) { sp.RunPlanCfgShard(ctx, jobs[j].p, jobs[j].cfg, jobs[j].op, check) })
 	ctx.Jobs("sweep", sweepParts, func(j int) { sweep(j, sweepParts) })
 
 	var planInfo []map[string]interface{}
